@@ -18,7 +18,7 @@ import (
 type c13Case struct {
 	UP4    bool     `json:"up4,omitempty"` // reports arrive as P4Runtime digests carrying the UE address
 	Kinds  []string `json:"kinds"`         // per session: "nocp" | "buff" | "forw" | "drop" | "nodl"
-	Events []int    `json:"events"` // sequence of targets: session index, -1 unknown F-SEID, -2 zero
+	Events []int    `json:"events"`        // sequence of targets: session index, -1 unknown F-SEID, -2 zero
 	CPSEID []uint64 `json:"cpseid"`
 }
 
@@ -321,4 +321,3 @@ func init() {
 		registerReplay("C13", "unit", runC13Unit)
 	})
 }
-
